@@ -68,6 +68,15 @@ structure Storage where
   floatFormatOK : Bool := false
   dataChecksumsEnabled : Bool := false
 
+/-- inferPGVersion as written before fixes/control/10: control version 1201 was taken for 13/14 and 1300 for 15/16 -/
+def inferPGVersion (controlVersion catalogVersion : Nat) : Nat :=
+  if controlVersion ≥ 1300 then (if catalogVersion ≥ 202307071 then 16 else 15)
+  else if controlVersion ≥ 1201 then (if catalogVersion ≥ 202107181 then 14 else 13)
+  else if controlVersion ≥ 1100 then (if catalogVersion ≥ 201909212 then 12 else 11)
+  else if controlVersion ≥ 1002 then 10
+  else if controlVersion ≥ 960 then 9
+  else 9
+
 def parseControlFile (data : Bytes) : M (Option ControlFile) := do
   if data.length < 296 then return none
   let systemIdentifier ← uN 8 data 0
